@@ -143,7 +143,7 @@ def run_property(prop, tier='quick', seed=0, only=None, jobs=None, verbose=True)
         # what the quick tier also runs goes first, so that the property-level deadline cuts the extras, not the core
         try:
             qids = set(o.id for o in mod.obligations('quick'))
-            obs = [o for o in obs if o.id in qids] + [o for o in obs if o.id not in qids]
+            obs = [o for o in obs if o.id in qids] + sorted([o for o in obs if o.id not in qids], key=lambda o: getattr(o, 'cost', 1))
         except Exception:
             pass
     if only:
